@@ -66,7 +66,7 @@ def run(ctx, res):
             if not loads:
                 continue
             res.saw(g)
-            ev = APE.run(prog, cg, g, bound=1)
+            ev = APE.run(prog, cg, g, bound=APE.BOUND)
             for n, lhs in loads:
                 nloads += 1
                 call = strip(n["kids"][1])
@@ -117,7 +117,7 @@ def run(ctx, res):
 
     # ---- R2 flags --------------------------------------------------------------------
     res.floor("C03.R2", 6)
-    ev = APE.run(prog, cg, seek, bound=1)
+    ev = APE.run(prog, cg, seek, bound=APE.BOUND)
     for p in ev.paths:
         if p.end != "exit":
             continue
@@ -143,7 +143,7 @@ def run(ctx, res):
                       "successful seek: in-block seek with the target, then first := true and valid := true",
                       "a successful seek does not end with first=true, valid=true after seeking the block iterator to the target",
                       seek.loc(seek.body), p.describe(seek))
-    ev = APE.run(prog, cg, nxt, bound=1)
+    ev = APE.run(prog, cg, nxt, bound=APE.BOUND)
     n_inv = 0
     for p in ev.paths:
         if p.end != "exit":
@@ -193,7 +193,7 @@ def run(ctx, res):
     res.floor("C03.R3", 5)
     nis = prog.need("needs_index_seek", U)
     res.saw(nis)
-    ev = APE.run(prog, cg, nis, bound=1)
+    ev = APE.run(prog, cg, nis, bound=APE.BOUND)
     for p in ev.paths:
         if p.end != "exit":
             continue
@@ -253,7 +253,7 @@ def run(ctx, res):
 
 def _callee_couples(prog, cg, callee, pidx):
     """In `callee`, every path that loads a block with offset X also stores X through parameter pidx."""
-    ev = APE.run(prog, cg, callee, bound=1)
+    ev = APE.run(prog, cg, callee, bound=APE.BOUND)
     pname = callee.params[pidx]["name"]
     found = False
     for p in ev.paths:
